@@ -14,6 +14,14 @@ CLUSTER_COLS = ('available_resources', 'running_tasks', 'finished_tasks',
                 'provisioned_observations')
 
 
+def ident(r):
+    """(observation, 'wf'|'ingest', node) of a do_work record: from the plan captured at
+    planning time / the allocation's observation; parsing the id is only the fallback."""
+    if r.get('ident') is not None:
+        return r['ident']
+    return split_tid(r['task'])
+
+
 def split_tid(tid):
     """'name_clock_node' -> (name, node) ; 'name_ingest_tI' -> (name, 'ingest', I)"""
     parts = tid.split('_')
@@ -28,7 +36,7 @@ def workflow_records(tr):
     for r in tr.dowork:
         if r.get('ingest'):
             continue
-        name, kind, node = split_tid(r['task'])
+        name, kind, node = ident(r)
         if kind != 'wf':
             continue
         out.setdefault(name, {}).setdefault(node, []).append(r)
@@ -186,23 +194,35 @@ def c04(case, tr, res):
     executed = {}
     for r in tr.dowork:
         executed[r['task']] = executed.get(r['task'], 0) + 1
-    expected = set()
+    wf_seen = {}
+    ing_seen = {}
+    for r in tr.dowork:
+        name, kind, node = ident(r)
+        if kind == 'ingest':
+            ing_seen.setdefault(name, {})
+            ing_seen[name][r['task']] = ing_seen[name].get(r['task'], 0) + 1
+        else:
+            key = (name, node)
+            wf_seen[key] = wf_seen.get(key, 0) + 1
+            if name not in sp['obs'] or node not in sp['obs'][name]['nodes']:
+                tr.violate('C04', 'unexpected_task_executed', task=r['task'])
+    n_expected = 0
     for name, o in sp['obs'].items():
-        for i in range(o['ingest_demand']):
-            expected.add(('ingest', name, str(i)))
+        n_expected += o['ingest_demand'] + len(o['nodes'])
         for node in o['nodes']:
-            expected.add(('wf', name, node))
-    seen = {}
-    for tid, n in executed.items():
-        name, kind, node = split_tid(tid)
-        key = ('ingest', name, node[1:]) if kind == 'ingest' else ('wf', name, node)
-        seen[key] = seen.get(key, 0) + n
-        if key not in expected:
-            tr.violate('C04', 'unexpected_task_executed', task=tid)
-    for key in expected:
-        n = seen.get(key, 0)
-        if n != 1:
-            tr.violate('C04', 'task_not_exactly_once', task='%s:%s:%s' % key, activations=n)
+            n = wf_seen.get((name, node), 0)
+            if n != 1:
+                tr.violate('C04', 'task_not_exactly_once', task='wf:%s:%s' % (name, node),
+                           activations=n)
+        ids = ing_seen.get(name, {})
+        if len(ids) != o['ingest_demand'] or any(v != 1 for v in ids.values()):
+            tr.violate('C04', 'task_not_exactly_once', task='ingest:%s' % name,
+                       activations=sum(ids.values()), distinct=len(ids),
+                       expected=o['ingest_demand'])
+    for name in ing_seen:
+        if name not in sp['obs']:
+            tr.violate('C04', 'unexpected_task_executed', task='ingest of %s' % name)
+    expected = range(n_expected)
     for r in tr.dowork:
         if not r.get('exited') or r.get('exc'):
             tr.violate('C04', 'task_not_completed_at_return', task=r['task'])
@@ -369,7 +389,7 @@ def c06(case, tr, res):
             tr.violate('C06', 'finish_not_exit_plus_one', task=r['task'], aft=r['aft'],
                        exit=r['t_exit'])
         if r.get('ingest'):
-            name = split_tid(r['task'])[0]
+            name = ident(r)[0]
             o = sp['obs'].get(name)
             if o is not None:
                 tr.cnt['c06_ingest_activations'] += 1
@@ -377,7 +397,7 @@ def c06(case, tr, res):
                     tr.violate('C06', 'ingest_runtime', task=r['task'], runtime=rt,
                                duration=o['duration'])
             continue
-        name, kind, node = split_tid(r['task'])
+        name, kind, node = ident(r)
         o = sp['obs'].get(name)
         if o is None or node not in o['nodes'] or r['machine'] not in sp['machines']:
             continue
@@ -459,7 +479,7 @@ def c08(case, tr, res):
     ing = {}
     for r in tr.dowork:
         if r.get('ingest'):
-            ing.setdefault(split_tid(r['task'])[0], []).append(r)
+            ing.setdefault(ident(r)[0], []).append(r)
     for name, o in tr.obs.items():
         s = sp['obs'][name]
         if o['begin'] is None:
@@ -704,7 +724,7 @@ def c15(case, tr, res):
     for r in tr.dowork:
         if r.get('ingest') or not r.get('exited') or r.get('exc'):
             continue
-        name, kind, node = split_tid(r['task'])
+        name, kind, node = ident(r)
         extra = int((sp['extras'].get(name) or {}).get(node, 0))
         if extra > 0:
             tr.cnt['c15_delayed_activations'] += 1
@@ -746,7 +766,7 @@ def c17(case, tr, res):
     for r in tr.dowork:
         if r.get('ingest'):
             continue
-        name, kind, node = split_tid(r['task'])
+        name, kind, node = ident(r)
         plan = (static.get(name) or {}).get(node)
         if plan is None:
             continue
